@@ -1,8 +1,18 @@
-/- Line-protocol driver for the Obj component (stub; see tools/AGENT_GUIDE.md). -/
+/- Line-protocol driver for the Obj component (C15): one request line in, one response line out. -/
+import Driver.Obj
+open Driver
+
+def dispatchObj (line : String) : String :=
+  let toks := (line.trimAscii.toString.splitOn " ").filter (· ≠ "")
+  match toks with
+  | [] => ""
+  | "OBJ" :: rest => obj rest
+  | _ => "BADVERB"
+
 partial def loop (h : IO.FS.Stream) (out : IO.FS.Stream) : IO Unit := do
   let line ← h.getLine
   if line.isEmpty then return ()
-  out.putStrLn "BADVERB"
+  out.putStrLn (dispatchObj line)
   loop h out
 
 def main : IO Unit := do
